@@ -67,7 +67,7 @@ def simplify_values(spec, ops, cfg, sig, timeout):
     tests = 0
     ops = [dict(o) for o in ops]
     for i, o in enumerate(ops):
-        for field, simple in (("v", 1.0), ("value", 2.0), ("scale", 2.0), ("h", 0), ("route", "ctor"),
+        for field, simple in (("v", 1.0), ("value", 2.0), ("scale", 2.0), ("h", 0),
                               ("prefixable", True), ("store", True), ("how", "to"), ("form", "tuple")):
             if field in o and o[field] != simple and not (field == "store" and o[field] is True):
                 cand = [dict(x) for x in ops]
